@@ -35,7 +35,9 @@ for C in $CHECKS; do
 done
 D=/verif/seeded/$ID-$K
 mkdir -p "$D"
-cp "$S/rebased.diff" "$D/patch.diff"; cp "$SRC/demo.py" "$D/demo.py"
+cp "$S/rebased.diff" "$D/patch.diff"
+# the kept demo finds the sandbox shim next to the seeded directories instead of /tmp/seedkit
+sed "s#'/tmp/seedkit'#__import__('os').path.join(__import__('os').path.dirname(__import__('os').path.abspath(__file__)), '..')#" "$SRC/demo.py" > "$D/demo.py"
 for C in $CHECKS; do cp "$S/res/$C.log" "$D/check_$C.log"; done
 /venv/bin/python - "$SRC/meta.json" "$D/meta.json" "$VERDICTS" "$RC_CLEAN" "$RC_MUT" <<'PY'
 import json, sys, datetime
